@@ -2,6 +2,7 @@ import PyamgV.Props.Restate
 import PyamgV.Proofs.C13Wrap
 import PyamgV.Proofs.C13Rat
 import PyamgV.Proofs.ExtC13Pmis
+import PyamgV.Proofs.ExtRsWholeWrap
 
 /-! # C13 — coarse/fine splittings are well formed and cover the strength graph
 
@@ -99,6 +100,20 @@ restate kernel_cljp_cover := PyamgV.KCljp.cljp_model_cover'
 restate kernel_cljp_exits := PyamgV.KCljp.run_exits
 restate kernel_mis_parallel_total := PyamgV.misParallel_total
 
+/-! ## extension E25: the first pass is computed safely (checked model `RS.runCk` of the whole kernel) -/
+/-- `RS(S)`, any caller pattern: the kernel call `rs_cf_splitting(n, Sp, Sj, Tp, Tj, 0, splitting)` on
+`remove_diagonal(S)` and its transpose performs only in-range array accesses, its main loop ends
+within `n` iterations, and what it returns is the first-pass splitting `rsSplit S false` of the
+theorems above -/
+restate rs_kernel_call_safe := PyamgV.C13.rs_kernel_call_safe
+/-- the arrays the wrapper builds are structurally valid CSR arrays -/
+restate rs_wrapper_arrays_wellformed_S := PyamgV.C13.prepS_WFp
+restate rs_wrapper_arrays_wellformed_T := PyamgV.C13.prepT_WFp
+/-- kernel level: every structurally valid pair `S`, `T` (transposes of each other or not), any size -/
+restate kernel_rs_whole_safe := PyamgV.RS.rs_cf_splitting_safe
+/-- structurally valid arrays have all row entries `< n` (the hypothesis `SOK` of the kernel-level theorems) -/
+restate kernel_rs_wellformed_rows := PyamgV.RS.WFp.sok
+
 /-! ## non-vacuity: the path 0–1–2–3 with a stored diagonal (CSR of the 1-D Poisson pattern) -/
 def path4 : PyamgV.C13.Pat := ⟨4, #[0,2,5,8,10], #[0,1,0,1,2,1,2,3,2,3]⟩
 example : PyamgV.C13.offRow path4 1 = [0, 2] := by decide
@@ -109,6 +124,11 @@ example : PyamgV.C13.SymPat path4 := by
     (j ∈ PyamgV.C13.offRow path4 i ↔ i ∈ PyamgV.C13.offRow path4 j)) i hi j hj
 /-- the edge hypothesis of the `…_has_coarse` theorems -/
 example : 2 ∈ PyamgV.C13.offRow path4 1 := by decide
+/-- the well-formedness hypothesis of `kernel_rs_whole_safe` is satisfiable on a graph with edges -/
+example : PyamgV.RS.WFp (PyamgV.C13.prepS path4) 4 := PyamgV.C13.prepS_WFp path4
+/-- the checked whole-kernel model on the off-diagonal arrays of this pattern runs clean and returns C,F,C,F -/
+example : (PyamgV.RS.runCk PyamgV.RS.path4 PyamgV.RS.path4).ok = true := by decide
+example : (PyamgV.RS.runCk PyamgV.RS.path4 PyamgV.RS.path4).val = #[1, 0, 1, 0] := by decide
 /-- the only hypothesis of `pmis_array_form_eq` (strictly totally ordered weights) is satisfiable -/
 example : PyamgV.WOrd Rat := PyamgV.C13.ratOrd
 
